@@ -1,1 +1,994 @@
-import Cstl.SList.Model
+import Cstl.SList.Lemmas
+import Cstl.SList.Run
+/-
+Property theorems for the singly-linked list (C13; the slist part of C15).
+Every theorem is about the link-level model in `Model.lean`; `IsSL m l xs`
+says that header `l` in memory `m` represents the reference sequence `xs`
+with the tail pointer at the true last node and `count = length`.
+-/
+namespace Cstl.SList
+
+/-- insert after position `pre` (after the head node when `pre = []`):
+the list becomes `pre ++ nn :: post`, the tail stays the true last, and only
+the links of `i` and `nn` are written. -/
+theorem insertAfter_spec {m : Mem} {l : Hd} {pre post : List Nat} {i nn : Nat}
+    (h : IsSL m l (pre ++ post)) (hi : i = lastOr l.h pre)
+    (hnn : nn ∉ l.h :: (pre ++ post)) (hnz : nn ≠ 0) :
+    IsSL (insertAfter m l i nn).1 (insertAfter m l i nn).2 (pre ++ nn :: post)
+    ∧ ∀ a, a ≠ i → a ≠ nn → (insertAfter m l i nn).1 a = m a := by
+  obtain ⟨hp, hnd, hhz, ht, hc⟩ := h
+  obtain ⟨hnd1, hnd2, hdisj⟩ := nodup_split hnd
+  have hi_mem : i ∈ l.h :: pre := hi ▸ lastOr_mem _ _
+  have hnn1 : nn ∉ l.h :: pre := fun hc => hnn (by
+    rcases List.mem_cons.mp hc with rfl | hc
+    · simp
+    · simp [hc])
+  have hnn2 : nn ∉ post := fun hc => hnn (by simp [hc])
+  have hine : i ≠ nn := fun e => hnn1 (e ▸ hi_mem)
+  rw [Seg_append'] at hp
+  obtain ⟨hp1, hp2⟩ := hp
+  refine ⟨⟨?_, ?_, hhz, ?_, ?_⟩, ?_⟩
+  · -- path
+    show Seg (upd (upd m nn (m i)) i nn) l.h (pre ++ nn :: post) 0
+    rw [Seg_append']
+    constructor
+    · have s1 : Seg (upd m nn (m i)) l.h pre (m i) := by
+        refine Seg_transfer (hi ▸ hp1) ?_ ?_
+        · exact upd_other _ _ _ _ (fun e => hnn1 (by simp [e]))
+        · intro a ha; exact upd_other _ _ _ _ (fun e => hnn1 (by simp [← e, ha]))
+      have s2 := Seg_upd_last (v := nn) s1 hnd1
+      rw [← hi] at s2 ⊢
+      simpa using s2
+    · rw [← hi]
+      refine ⟨by simp, hnz, ?_⟩
+      refine Seg_transfer (hi ▸ hp2) ?_ ?_
+      · rw [upd_other _ _ _ _ (Ne.symm hine)]; simp
+      · intro a ha
+        have h1 : a ≠ i := fun e => hdisj i hi_mem (e ▸ ha)
+        have h2 : a ≠ nn := fun e => hnn2 (e ▸ ha)
+        rw [upd_other _ _ _ _ h1, upd_other _ _ _ _ h2]
+  · -- nodup
+    show (l.h :: (pre ++ nn :: post)).Nodup
+    exact nodup_insert_mid hnd hnn
+  · -- tail
+    show (if l.t = i then nn else l.t) = lastOr l.h (pre ++ nn :: post)
+    rw [lastOr_append_cons]
+    cases post with
+    | nil =>
+      have : l.t = i := by rw [ht, hi]; simp
+      simp [this]
+    | cons y ys =>
+      have e : l.t = lastOr y ys := by rw [ht, lastOr_append_cons]
+      have hne : l.t ≠ i := by
+        intro e2
+        exact hdisj i hi_mem (e2 ▸ e ▸ lastOr_mem y ys)
+      rw [if_neg hne, e]; rfl
+  · show l.count + 1 = (pre ++ nn :: post).length
+    simp [hc]; omega
+  · intro a h1 h2
+    show upd (upd m nn (m i)) i nn a = m a
+    rw [upd_other _ _ _ _ h1, upd_other _ _ _ _ h2]
+
+/-- erase the node after position `pre`: exactly `n` leaves, it is returned,
+the tail moves back iff the removed node was the last. -/
+theorem eraseAfter_spec {m : Mem} {l : Hd} {pre post : List Nat} {e n : Nat}
+    (h : IsSL m l (pre ++ n :: post)) (he : e = lastOr l.h pre) :
+    ∃ m' l', eraseAfter m l e = some (m', l', n) ∧ IsSL m' l' (pre ++ post)
+      ∧ ∀ a, a ≠ e → m' a = m a := by
+  obtain ⟨hp, hnd, hhz, ht, hc⟩ := h
+  obtain ⟨hnd', hn_notin⟩ := nodup_remove_mid hnd
+  obtain ⟨hnd1, hnd2, hdisj⟩ := nodup_split hnd'
+  have he_mem : e ∈ l.h :: pre := he ▸ lastOr_mem _ _
+  rw [Seg_append'] at hp
+  obtain ⟨hp1, hp2⟩ := hp
+  rw [← he] at hp1 hp2
+  obtain ⟨hme, hnz, hp3⟩ := hp2
+  have hen : e ≠ n := fun e2 => hn_notin (by
+    rcases List.mem_cons.mp he_mem with h1 | h1
+    · simp [← e2, h1]
+    · simp [← e2, h1])
+  refine ⟨upd m e (m n), { l with t := if l.t = n then e else l.t, count := l.count - 1 }, ?_, ⟨?_, hnd', hhz, ?_, ?_⟩, ?_⟩
+  · simp [eraseAfter, hme, hnz]
+  · show Seg (upd m e (m n)) l.h (pre ++ post) 0
+    rw [Seg_append', ← he]
+    constructor
+    · have := Seg_upd_last (v := m n) hp1 hnd1
+      rw [← he] at this
+      simpa using this
+    · refine Seg_transfer hp3 (by simp) ?_
+      intro a ha
+      exact upd_other _ _ _ _ (fun e2 => hdisj e he_mem (e2 ▸ ha))
+  · show (if l.t = n then e else l.t) = lastOr l.h (pre ++ post)
+    rw [lastOr_append_cons] at ht
+    cases post with
+    | nil => simp [ht, he]
+    | cons y ys =>
+      have hne : l.t ≠ n := by
+        intro e2
+        apply hn_notin
+        have := lastOr_mem y ys
+        rw [lastOr_cons] at ht
+        rw [← ht, e2] at this
+        simp [this]
+      rw [if_neg hne, ht, lastOr_append_cons]; rfl
+  · show l.count - 1 = (pre ++ post).length
+    simp at hc ⊢; omega
+  · intro a ha
+    exact upd_other _ _ _ _ ha
+
+theorem pushFront_spec {m : Mem} {l : Hd} {xs : List Nat} {e : Nat}
+    (h : IsSL m l xs) (he : e ∉ l.h :: xs) (hnz : e ≠ 0) :
+    IsSL (pushFront m l e).1 (pushFront m l e).2 (e :: xs)
+    ∧ ∀ a, a ≠ l.h → a ≠ e → (pushFront m l e).1 a = m a :=
+  insertAfter_spec (pre := []) (post := xs) h rfl he hnz
+
+/-- `push_back` appends after the true last element of any represented list -/
+theorem pushBack_spec {m : Mem} {l : Hd} {xs : List Nat} {e : Nat}
+    (h : IsSL m l xs) (he : e ∉ l.h :: xs) (hnz : e ≠ 0) :
+    IsSL (pushBack m l e).1 (pushBack m l e).2 (xs ++ [e])
+    ∧ ∀ a, a ≠ l.t → a ≠ e → (pushBack m l e).1 a = m a := by
+  have h' : IsSL m l (xs ++ []) := by simpa using h
+  have := insertAfter_spec (pre := xs) (post := []) (i := l.t) (nn := e) h' h.tail (by simpa using he) hnz
+  simpa [pushBack] using this
+
+theorem popFront_spec {m : Mem} {l : Hd} {x : Nat} {xs : List Nat} (h : IsSL m l (x :: xs)) :
+    ∃ m' l', popFront m l = some (m', l', some x) ∧ IsSL m' l' xs ∧ ∀ a, a ≠ l.h → m' a = m a := by
+  have hne : l.t ≠ l.h := fun e => by simpa using (h.tail_eq_head_iff.mp e)
+  obtain ⟨m', l', h1, h2, h3⟩ := eraseAfter_spec (pre := []) (post := xs) (e := l.h) (n := x) h rfl
+  exact ⟨m', l', by simp [popFront, hne, h1], h2, h3⟩
+
+/-- `pop_front` on an empty list returns NULL and leaves the list as it was -/
+theorem popFront_empty {m : Mem} {l : Hd} (h : IsSL m l []) : popFront m l = some (m, l, none) := by
+  have : l.t = l.h := h.tail_eq_head_iff.mpr rfl
+  simp [popFront, this]
+
+theorem front_spec {m : Mem} {l : Hd} {xs : List Nat} (h : IsSL m l xs) : front m l = xs.head? := by
+  cases xs with
+  | nil => simp [front, h.tail_eq_head_iff.mpr rfl]
+  | cons x xs =>
+    have hne : l.t ≠ l.h := fun e => by simpa using (h.tail_eq_head_iff.mp e)
+    simp [front, hne, h.path.1]
+
+theorem lastOr_eq_getLast? (a : Nat) (xs : List Nat) : xs.getLast? = if xs = [] then none else some (lastOr a xs) := by
+  induction xs generalizing a with
+  | nil => simp
+  | cons x xs ih =>
+    simp only [lastOr_cons]
+    cases xs with
+    | nil => simp
+    | cons y ys =>
+      have := ih x
+      simp only [List.getLast?_cons_cons] at this ⊢
+      simpa using this
+
+theorem back_spec {m : Mem} {l : Hd} {xs : List Nat} (h : IsSL m l xs) : back m l = xs.getLast? := by
+  rw [lastOr_eq_getLast? l.h xs]
+  by_cases hx : xs = []
+  · simp [back, h.tail_eq_head_iff.mpr hx, hx]
+  · have hne : l.t ≠ l.h := fun e => hx (h.tail_eq_head_iff.mp e)
+    have e := h.tail
+    simp [back, hne, hx]; exact e
+
+/-- loop invariant of `cstl_slist_reverse`: with the list standing as
+`A ++ c :: B`, the loop moves the nodes of `B` one by one to the front. -/
+theorem revLoop_spec {m : Mem} {h c : Nat} {A B : List Nat} (fuel : Nat)
+    (hp : Seg m h (A ++ c :: B) 0) (hnd : (h :: (A ++ c :: B)).Nodup) (hf : B.length ≤ fuel) :
+    ∃ m', revLoop fuel m h c = some m' ∧ Seg m' h (B.reverse ++ A ++ [c]) 0
+      ∧ ∀ a, a ∉ h :: (A ++ c :: B) → m' a = m a := by
+  induction B generalizing m A fuel with
+  | nil =>
+    have hc0 : m c = 0 := by
+      have := Seg_last hp
+      rwa [lastOr_append_cons] at this
+    refine ⟨m, ?_, by simpa using hp, fun _ _ => rfl⟩
+    cases fuel <;> simp [revLoop, hc0]
+  | cons n B ih =>
+    cases fuel with
+    | zero => simp at hf
+    | succ f =>
+      rw [Seg_append] at hp
+      obtain ⟨hA, hcz, hcn, hnz, hB⟩ := hp
+      -- disequalities from nodup
+      have hnd2 : (h :: ((n :: A) ++ c :: B)).Nodup := by
+        have hp : (h :: ((n :: A) ++ c :: B)).Perm (h :: (A ++ c :: n :: B)) := by
+          refine List.Perm.cons h ?_
+          have h1 : (A ++ c :: n :: B).Perm (n :: (A ++ c :: B)) := by
+            have : (A ++ c :: n :: B) = (A ++ [c]) ++ n :: B := by simp
+            rw [this]
+            refine List.perm_middle.trans ?_
+            simp
+          simpa using h1.symm
+        exact hp.nodup_iff.mpr hnd
+      have hmem : ∀ a, a ∈ h :: ((n :: A) ++ c :: B) ↔ a ∈ h :: (A ++ c :: n :: B) := by
+        intro a; simp only [List.mem_cons, List.mem_append, List.cons_append]; grind
+      have hhc : h ≠ c := by grind
+      have hhn : h ≠ n := by grind
+      have hcn' : c ≠ n := by grind
+      have hAh : ∀ a ∈ A, a ≠ h ∧ a ≠ n ∧ a ≠ c := by intro a ha; grind
+      have hBh : ∀ a ∈ B, a ≠ h ∧ a ≠ n ∧ a ≠ c := by intro a ha; grind
+      let m1 := upd m c (m n)
+      let m2 := upd m1 n (m1 h)
+      let m3 := upd m2 h n
+      have e3n : m3 n = m h := by
+        show upd m2 h n n = m h
+        rw [upd_other _ _ _ _ (Ne.symm hhn)]
+        show upd m1 n (m1 h) n = m h
+        rw [upd_same]
+        exact upd_other _ _ _ _ hhc
+      have e3c : m3 c = m n := by
+        show upd m2 h n c = m n
+        rw [upd_other _ _ _ _ (Ne.symm hhc)]
+        show upd m1 n (m1 h) c = m n
+        rw [upd_other _ _ _ _ hcn']
+        exact upd_same _ _ _
+      have e3o : ∀ a, a ≠ h → a ≠ n → a ≠ c → m3 a = m a := by
+        intro a h1 h2 h3
+        show upd (upd (upd m c (m n)) n _) h n a = m a
+        rw [upd_other _ _ _ _ h1, upd_other _ _ _ _ h2, upd_other _ _ _ _ h3]
+      have hp3 : Seg m3 h ((n :: A) ++ c :: B) 0 := by
+        show Seg m3 h (n :: (A ++ c :: B)) 0
+        refine ⟨upd_same _ _ _, hnz, ?_⟩
+        rw [Seg_append]
+        refine ⟨?_, hcz, ?_⟩
+        · exact Seg_transfer hA e3n (fun a ha => e3o a (hAh a ha).1 (hAh a ha).2.1 (hAh a ha).2.2)
+        · exact Seg_transfer hB e3c (fun a ha => e3o a (hBh a ha).1 (hBh a ha).2.1 (hBh a ha).2.2)
+      obtain ⟨m', hr, hs, hfr⟩ := ih (m := m3) (A := n :: A) f hp3 hnd2 (by simpa using hf)
+      refine ⟨m', ?_, ?_, ?_⟩
+      · have hne : m c ≠ 0 := by rw [hcn]; exact hnz
+        simp only [revLoop, hne, if_false]
+        rw [hcn]
+        exact hr
+      · simpa [List.append_assoc] using hs
+      · intro a ha
+        have ha' : a ∉ h :: ((n :: A) ++ c :: B) := fun hc => ha ((hmem a).mp hc)
+        rw [hfr a ha']
+        have : a ≠ h ∧ a ≠ n ∧ a ≠ c := by
+          simp only [List.mem_cons, List.mem_append] at ha; grind
+        exact e3o a this.1 this.2.1 this.2.2
+
+/-- `reverse` represents the mirrored sequence; the tail is the former first. -/
+theorem reverse_spec {m : Mem} {l : Hd} {xs : List Nat} (h : IsSL m l xs) :
+    ∃ m' l', reverse m l = some (m', l') ∧ IsSL m' l' xs.reverse
+      ∧ ∀ a, a ∉ l.h :: xs → m' a = m a := by
+  by_cases hc : l.count > 1
+  · cases xs with
+    | nil => have := h.count; simp at this; omega
+    | cons c B =>
+      have hmc : m l.h = c := h.path.1
+      obtain ⟨m', hr, hs, hfr⟩ := revLoop_spec (A := []) l.count (by simpa using h.path)
+        (by simpa using h.nodup) (by have := h.count; simp at this; omega)
+      refine ⟨m', { l with t := c }, ?_, ⟨?_, ?_, h.hnz, ?_, ?_⟩, ?_⟩
+      · simp [reverse, hc, hmc, hr]
+      · simpa using hs
+      · have : (l.h :: (c :: B).reverse).Perm (l.h :: c :: B) := (List.reverse_perm _).cons _
+        exact this.nodup_iff.mpr h.nodup
+      · show c = lastOr l.h (c :: B).reverse
+        rw [List.reverse_cons, lastOr_append_singleton]
+      · simpa using h.count
+      · intro a ha; exact hfr a (by simpa using ha)
+  · refine ⟨m, l, by simp [reverse, hc], ?_, fun _ _ => rfl⟩
+    have hl : xs.length ≤ 1 := by have := h.count; omega
+    have : xs.reverse = xs := by
+      match xs, hl with
+      | [], _ => rfl
+      | [_], _ => rfl
+    rw [this]; exact h
+
+/-- two represented lists do not share nodes -/
+def Disjoint (a : Hd) (xs : List Nat) (b : Hd) (ys : List Nat) : Prop :=
+  ∀ x ∈ a.h :: xs, x ∉ b.h :: ys
+
+theorem lastOr_append_ne (a b : Nat) (xs ys : List Nat) (h : ys ≠ []) :
+    lastOr a (xs ++ ys) = lastOr b ys := by
+  cases ys with
+  | nil => exact absurd rfl h
+  | cons y ys => rw [lastOr_append_cons]; rfl
+
+/-- `concat d s`: all elements of `s`, in order, at the end of `d`; `s` empty
+and usable; the tail of `d` is the true last. -/
+theorem concat_spec {m : Mem} {d s : Hd} {xs ys : List Nat}
+    (hd : IsSL m d xs) (hs : IsSL m s ys) (hdis : Disjoint d xs s ys) :
+    IsSL (concat m d s).1 (concat m d s).2.1 (xs ++ ys) ∧ IsSL (concat m d s).1 (concat m d s).2.2 []
+    ∧ ∀ a, a ≠ d.t → a ≠ s.h → (concat m d s).1 a = m a := by
+  by_cases hc : s.count > 0
+  · have hys : ys ≠ [] := by intro e; subst e; have := hs.count; simp at this; omega
+    have hdt : d.t ∈ d.h :: xs := hd.tail_mem
+    have hts : d.t ≠ s.h := fun e => hdis _ hdt (by simp [e])
+    have hsd : s.h ∉ d.h :: xs := fun hm => hdis _ hm (by simp)
+    have e1 : concat m d s = (upd (upd m d.t (m s.h)) s.h 0,
+        { d with t := s.t, count := d.count + s.count }, { h := s.h, t := s.h, count := 0 }) := by
+      simp [concat, hc, init]
+    rw [e1]
+    refine ⟨⟨?_, ?_, hd.hnz, ?_, ?_⟩, ⟨by simp, by simp, hs.hnz, rfl, rfl⟩, ?_⟩
+    · show Seg (upd (upd m d.t (m s.h)) s.h 0) d.h (xs ++ ys) 0
+      rw [Seg_append', ← hd.tail]
+      constructor
+      · have s1 := Seg_upd_last (v := m s.h) hd.path hd.nodup
+        rw [← hd.tail] at s1
+        have s2 : Seg (upd (upd m d.t (m s.h)) s.h 0) d.h xs (m s.h) :=
+          Seg_transfer s1 (upd_other _ _ _ _ (fun e => hsd (by simp [e])))
+            (fun a ha => upd_other _ _ _ _ (fun e => hsd (by simp [← e, ha])))
+        rw [upd_other _ _ _ _ hts, upd_same]
+        exact s2
+      · refine Seg_transfer hs.path ?_ ?_
+        · rw [upd_other _ _ _ _ hts, upd_same]
+        · intro a ha
+          have h1 : a ≠ s.h := fun e => by
+            have := hs.nodup; rw [← e] at this; exact (List.nodup_cons.mp this).1 ha
+          have h2 : a ≠ d.t := fun e => hdis _ hdt (by simp [← e, ha])
+          rw [upd_other _ _ _ _ h1, upd_other _ _ _ _ h2]
+    · show (d.h :: (xs ++ ys)).Nodup
+      have : ((d.h :: xs) ++ ys).Nodup := by
+        rw [List.nodup_append]
+        refine ⟨hd.nodup, (List.nodup_cons.mp hs.nodup).2, ?_⟩
+        intro a ha b hb e
+        exact hdis a ha (by simp [e, hb])
+      simpa using this
+    · show s.t = lastOr d.h (xs ++ ys)
+      rw [lastOr_append_ne d.h s.h xs ys hys]; exact hs.tail
+    · show d.count + s.count = (xs ++ ys).length
+      simp [hd.count, hs.count]
+    · intro a h1 h2
+      show upd (upd m d.t (m s.h)) s.h 0 a = m a
+      rw [upd_other _ _ _ _ h2, upd_other _ _ _ _ h1]
+  · have hys : ys = [] := by
+      have := hs.count
+      cases ys with
+      | nil => rfl
+      | cons y ys => simp at this; omega
+    subst hys
+    have e1 : concat m d s = (m, d, s) := by simp [concat, hc]
+    rw [e1]
+    exact ⟨by simpa using hd, hs, fun _ _ _ => rfl⟩
+
+theorem swap_eq (m : Mem) (a b : Hd) :
+    swap m a b = (upd (upd m a.h (m b.h)) b.h (m a.h),
+      { h := a.h, t := if b.count = 0 then a.h else b.t, count := b.count },
+      { h := b.h, t := if a.count = 0 then b.h else a.t, count := a.count }) := by
+  simp only [swap]
+  split <;> split <;> simp_all
+
+/-- `swap` exchanges the two sequences; an empty result is re-anchored on its
+own head, so `push_back` keeps working after a swap with an empty list. -/
+theorem swap_spec {m : Mem} {a b : Hd} {xs ys : List Nat}
+    (ha : IsSL m a xs) (hb : IsSL m b ys) (hdis : Disjoint a xs b ys) :
+    IsSL (swap m a b).1 (swap m a b).2.1 ys ∧ IsSL (swap m a b).1 (swap m a b).2.2 xs
+    ∧ ∀ x, x ≠ a.h → x ≠ b.h → (swap m a b).1 x = m x := by
+  have hab : a.h ≠ b.h := fun e => hdis a.h (by simp) (by simp [e])
+  have hay : ∀ y ∈ ys, y ≠ a.h ∧ y ≠ b.h := by
+    intro y hy
+    refine ⟨fun e => hdis a.h (by simp) (by simp [← e, hy]), fun e => ?_⟩
+    have := hb.nodup; rw [← e] at this; exact (List.nodup_cons.mp this).1 hy
+  have hbx : ∀ x ∈ xs, x ≠ a.h ∧ x ≠ b.h := by
+    intro x hx
+    refine ⟨fun e => ?_, fun e => hdis x (by simp [hx]) (by simp [e])⟩
+    have := ha.nodup; rw [← e] at this; exact (List.nodup_cons.mp this).1 hx
+  let m1 := upd (upd m a.h (m b.h)) b.h (m a.h)
+  have m1a : m1 a.h = m b.h := by
+    show upd (upd m a.h (m b.h)) b.h (m a.h) a.h = m b.h
+    rw [upd_other _ _ _ _ hab, upd_same]
+  have m1b : m1 b.h = m a.h := upd_same _ _ _
+  have m1o : ∀ x, x ≠ a.h → x ≠ b.h → m1 x = m x := by
+    intro x h1 h2
+    show upd (upd m a.h (m b.h)) b.h (m a.h) x = m x
+    rw [upd_other _ _ _ _ h2, upd_other _ _ _ _ h1]
+  rw [swap_eq]
+  refine ⟨⟨?_, ?_, ha.hnz, ?_, ?_⟩, ⟨?_, ?_, hb.hnz, ?_, ?_⟩, m1o⟩
+  · exact Seg_transfer hb.path m1a (fun y hy => m1o y (hay y hy).1 (hay y hy).2)
+  · show (a.h :: ys).Nodup
+    exact List.nodup_cons.mpr ⟨fun hm => (hay _ hm).1 rfl, (List.nodup_cons.mp hb.nodup).2⟩
+  · show (if b.count = 0 then a.h else b.t) = lastOr a.h ys
+    have hcount := hb.count
+    cases ys with
+    | nil => simp [hcount]
+    | cons y ys' =>
+      have : b.count ≠ 0 := by simp at hcount; omega
+      simp [this, hb.tail]
+  · exact hb.count
+  · exact Seg_transfer ha.path m1b (fun x hx => m1o x (hbx x hx).1 (hbx x hx).2)
+  · show (b.h :: xs).Nodup
+    exact List.nodup_cons.mpr ⟨fun hm => (hbx _ hm).2 rfl, (List.nodup_cons.mp ha.nodup).2⟩
+  · show (if a.count = 0 then b.h else a.t) = lastOr b.h xs
+    have hcount := ha.count
+    cases xs with
+    | nil => simp [hcount]
+    | cons x xs' =>
+      have : a.count ≠ 0 := by simp at hcount; omega
+      simp [this, ha.tail]
+  · exact ha.count
+
+theorem foreachLoop_spec (visit : Nat → Nat → Int) {m : Mem} {c : Nat} {ys : List Nat} (fuel k : Nat)
+    (acc : List Nat) (h : Chain m c ys) (hf : ys.length < fuel) :
+    foreachLoop visit fuel m c k acc
+      = (acc.reverse ++ (refForeach visit ys k).1, (refForeach visit ys k).2) := by
+  induction ys generalizing c fuel k acc with
+  | nil =>
+    have : c = 0 := h
+    subst this
+    cases fuel <;> simp [foreachLoop, refForeach]
+  | cons y ys ih =>
+    obtain ⟨h1, h2, h3⟩ := h
+    subst h1
+    cases fuel with
+    | zero => simp at hf
+    | succ f =>
+      by_cases hv : visit k c = 0
+      · simp only [foreachLoop, h2, if_false, hv, refForeach, ne_eq, not_true_eq_false]
+        rw [ih f (k + 1) (c :: acc) h3 (by simpa using hf)]
+        simp
+      · simp [foreachLoop, h2, hv, refForeach]
+
+/-- `foreach` presents the reference sequence in order and stops at, and
+returns, the first non-zero visit result -/
+theorem foreach_spec {m : Mem} {l : Hd} {xs : List Nat} (h : IsSL m l xs) (visit : Nat → Nat → Int) :
+    foreach m l visit = refForeach visit xs 0 := by
+  have := foreachLoop_spec visit (l.count + 1) 0 [] (Seg_iff_Chain.mp h.path)
+    (by rw [h.count]; omega)
+  simpa [foreach] using this
+
+/-- what `refForeach` means: the visited elements are a prefix of the sequence;
+result 0 iff every visit returned 0 (then everything was visited); otherwise
+the result is the first non-zero visit result and the traversal stopped there -/
+theorem refForeach_sound (visit : Nat → Nat → Int) (xs : List Nat) (k : Nat) :
+    let r := refForeach visit xs k
+    r.1 = xs.take r.1.length
+    ∧ (∀ i, i + 1 < r.1.length → visit (k + i) (xs.getD i 0) = 0)
+    ∧ (r.2 = 0 → r.1 = xs ∧ ∀ i, i < xs.length → visit (k + i) (xs.getD i 0) = 0)
+    ∧ (r.2 ≠ 0 → r.1 ≠ [] ∧ r.2 = visit (k + (r.1.length - 1)) (xs.getD (r.1.length - 1) 0)) := by
+  induction xs generalizing k with
+  | nil => simp [refForeach]
+  | cons x xs ih =>
+    by_cases hv : visit k x = 0
+    · have := ih (k + 1)
+      simp only [refForeach, hv, ne_eq, not_true_eq_false, if_false]
+      obtain ⟨i1, i2, i3, i4⟩ := this
+      refine ⟨by simpa using i1, ?_, ?_, ?_⟩
+      · intro i hi
+        cases i with
+        | zero => simpa using hv
+        | succ j =>
+          have := i2 j (by simpa using hi)
+          simpa [Nat.add_assoc, Nat.add_comm 1 j] using this
+      · intro hr
+        obtain ⟨e1, e2⟩ := i3 hr
+        refine ⟨by rw [e1], ?_⟩
+        intro i hi
+        cases i with
+        | zero => simpa using hv
+        | succ j =>
+          have := e2 j (by simpa using hi)
+          simpa [Nat.add_assoc, Nat.add_comm 1 j] using this
+      · intro hr
+        obtain ⟨e1, e2⟩ := i4 hr
+        refine ⟨by simp, ?_⟩
+        have hl : (refForeach visit xs (k + 1)).1.length ≥ 1 := by
+          cases h : (refForeach visit xs (k + 1)).1 with
+          | nil => exact absurd h e1
+          | cons _ _ => simp
+        rw [e2]
+        simp only [List.length_cons, Nat.add_sub_cancel]
+        have : (refForeach visit xs (k + 1)).1.length = ((refForeach visit xs (k + 1)).1.length - 1) + 1 := by omega
+        conv => rhs; rw [this]
+        simp [Nat.add_assoc, Nat.add_comm 1]
+    · simp [refForeach, hv]
+
+/-- `clear`: every element of the list is handed to the callback exactly once,
+in list order, whatever the callback does to the element (`poison` is
+arbitrary); nothing is written to an element after its callback; the list ends
+empty and initialised. -/
+theorem clearLoop_spec (poison : Nat → Nat) {m : Mem} {c : Nat} {ys : List Nat} (fuel : Nat) (acc : List Nat)
+    (h : Chain m c ys) (hnd : ys.Nodup) (hf : ys.length < fuel) :
+    (clearLoop poison fuel m c acc).2 = acc.reverse ++ ys
+    ∧ (∀ e ∈ ys, (clearLoop poison fuel m c acc).1 e = poison e)
+    ∧ (∀ a, a ∉ ys → (clearLoop poison fuel m c acc).1 a = m a) := by
+  induction ys generalizing m c fuel acc with
+  | nil =>
+    have : c = 0 := h
+    subst this
+    cases fuel <;> simp [clearLoop]
+  | cons y ys ih =>
+    obtain ⟨h1, h2, h3⟩ := h
+    subst h1
+    cases fuel with
+    | zero => simp at hf
+    | succ f =>
+      have hy : c ∉ ys := (List.nodup_cons.mp hnd).1
+      have hnd' := (List.nodup_cons.mp hnd).2
+      have h3' : Chain (upd m c (poison c)) (m c) ys :=
+        Chain_transfer h3 (fun a ha => upd_other _ _ _ _ (fun e => hy (e ▸ ha)))
+      obtain ⟨i1, i2, i3⟩ := ih (m := upd m c (poison c)) f (c :: acc) h3' hnd' (by simpa using hf)
+      simp only [clearLoop, h2, if_false]
+      refine ⟨by simp [i1], ?_, ?_⟩
+      · intro e he
+        rcases List.mem_cons.mp he with rfl | he
+        · rw [i3 _ hy]; simp
+        · exact i2 e he
+      · intro a ha
+        have : a ∉ ys := fun hm => ha (by simp [hm])
+        rw [i3 a this]
+        exact upd_other _ _ _ _ (fun e => ha (by simp [e]))
+
+theorem clear_spec {m : Mem} {l : Hd} {xs : List Nat} (h : IsSL m l xs) (poison : Nat → Nat) :
+    (clear m l poison).2.2 = xs
+    ∧ IsSL (clear m l poison).1 (clear m l poison).2.1 []
+    ∧ (clear m l poison).2.1 = { h := l.h, t := l.h, count := 0 }
+    ∧ (∀ e ∈ xs, (clear m l poison).1 e = poison e)
+    ∧ (∀ a, a ∉ l.h :: xs → (clear m l poison).1 a = m a) := by
+  obtain ⟨i1, i2, i3⟩ := clearLoop_spec poison (l.count + 1) [] (Seg_iff_Chain.mp h.path)
+    (List.nodup_cons.mp h.nodup).2 (by rw [h.count]; omega)
+  have hh : l.h ∉ xs := (List.nodup_cons.mp h.nodup).1
+  refine ⟨by simpa [clear] using i1, ?_, rfl, ?_, ?_⟩
+  · exact ⟨by simp [clear, init], by simp [clear, init], h.hnz, rfl, rfl⟩
+  · intro e he
+    show upd _ l.h 0 e = poison e
+    have hne : e ≠ l.h := fun e2 => hh (e2 ▸ he)
+    rw [upd_other _ _ _ _ hne]
+    exact i2 e he
+  · intro a ha
+    show upd _ l.h 0 a = m a
+    rw [upd_other _ _ _ _ (fun e2 => ha (by simp [e2]))]
+    exact i3 a (fun hm => ha (by simp [hm]))
+
+/-- `sort` leaves an ordered permutation of the same nodes, correctly linked,
+with the tail at the true last. -/
+theorem sort_spec {m : Mem} {l : Hd} {xs : List Nat} (h : IsSL m l xs) (key : Nat → Int) :
+    let ys := if l.count > 1 then msort key xs.length xs else xs
+    IsSL (sort m l key).1 (sort m l key).2 ys ∧ ys.Perm xs ∧ SortedBy key ys
+    ∧ ∀ a, a ∉ l.h :: xs → (sort m l key).1 a = m a := by
+  intro ys
+  by_cases hc : l.count > 1
+  · have hw : walk m l.count l.h = xs := walk_of_Seg h.path _ (by rw [h.count]; omega)
+    have hys : ys = msort key xs.length xs := by simp [ys, hc]
+    have hperm : ys.Perm xs := hys ▸ msort_perm key _ xs
+    have hsorted : SortedBy key ys := hys ▸ msort_sorted key _ xs (Nat.le_refl _)
+    have hnd : (l.h :: ys).Nodup := (hperm.cons l.h).nodup_iff.mpr h.nodup
+    have hnz : ∀ y ∈ ys, y ≠ 0 := fun y hy => h.nonzero y (hperm.mem_iff.mp hy)
+    obtain ⟨r1, r2⟩ := relink_spec m l.h ys hnd hnz
+    have e : sort m l key = (relink m l.h ys, { l with t := lastOr l.h ys }) := by
+      simp [sort, hc, hw, hys]
+    rw [e]
+    refine ⟨⟨r1, hnd, h.hnz, rfl, ?_⟩, hperm, hsorted, ?_⟩
+    · show l.count = ys.length
+      rw [h.count, hperm.length_eq]
+    · intro a ha
+      exact r2 a (fun hm => ha (by
+        rcases List.mem_cons.mp hm with h1 | h1
+        · simp [h1]
+        · exact List.mem_cons_of_mem _ (hperm.mem_iff.mp h1)))
+  · have hys : ys = xs := by simp [ys, hc]
+    have e : sort m l key = (m, l) := by simp [sort, hc]
+    rw [e, hys]
+    refine ⟨h, List.Perm.refl _, ?_, fun _ _ => rfl⟩
+    have hl : xs.length ≤ 1 := by have := h.count; omega
+    match xs, hl with
+    | [], _ => simp [SortedBy]
+    | [_], _ => simp [SortedBy]
+
+/-- the state dump of the driver (walking the links) reads back exactly the
+represented sequence -/
+theorem walk_spec {m : Mem} {l : Hd} {xs : List Nat} (h : IsSL m l xs) (fuel : Nat)
+    (hf : xs.length ≤ fuel) : walk m fuel l.h = xs := walk_of_Seg h.path fuel hf
+
+/-! Non-vacuity: a concrete three-element list satisfies `IsSL`, so the
+hypotheses of the theorems above are satisfiable. -/
+example :
+    let s0 := init (fun _ => 0) 1
+    let s1 := pushBack s0.1 s0.2 10
+    let s2 := pushBack s1.1 s1.2 11
+    let s3 := pushFront s2.1 s2.2 12
+    IsSL s3.1 s3.2 [12, 10, 11] := by
+  intro s0 s1 s2 s3
+  have h0 : IsSL s0.1 s0.2 [] := IsSL_init _ 1 (by decide)
+  have h1 : IsSL s1.1 s1.2 [10] := (pushBack_spec h0 (by simp [s0, init]) (by decide)).1
+  have h2 : IsSL s2.1 s2.2 [10, 11] := (pushBack_spec h1 (by simp [s1, s0, init, pushBack, insertAfter]) (by decide)).1
+  exact (pushFront_spec h2 (by simp [s2, s1, s0, init, pushBack, insertAfter]) (by decide)).1
+
+/-! ## Histories: any operation sequence over any number of lists -/
+
+/-- the link-level state `s` represents the reference state `q` (lists
+`0 … n-1`, head nodes at `ha i`), and no node is shared between lists -/
+structure Abs (n : Nat) (ha : Nat → Nat) (s : St) (q : Nat → List Nat) : Prop where
+  sl : ∀ i, i < n → IsSL s.m (s.hd i) (q i)
+  hh : ∀ i, i < n → (s.hd i).h = ha i
+  dis : ∀ i j, i < n → j < n → i ≠ j → ∀ x ∈ ha i :: q i, x ∉ ha j :: q j
+
+theorem insAfterL_spec (b e : Nat) (pre post : List Nat) (hb : b ∉ pre) :
+    insAfterL b e (pre ++ b :: post) = pre ++ b :: e :: post := by
+  induction pre with
+  | nil => simp [insAfterL]
+  | cons x pre ih =>
+    have hx : x ≠ b := fun e => hb (by simp [e])
+    simp [insAfterL, hx, ih (fun h => hb (by simp [h]))]
+
+theorem eraAfterL_spec (b x : Nat) (pre post : List Nat) (hb : b ∉ pre) :
+    eraAfterL b (pre ++ b :: x :: post) = some (x, pre ++ b :: post) := by
+  induction pre with
+  | nil => simp [eraAfterL]
+  | cons y pre ih =>
+    have hy : y ≠ b := fun e => hb (by simp [e])
+    have := ih (fun h => hb (by simp [h]))
+    cases pre with
+    | nil => simp [eraAfterL, hy]
+    | cons z pre => simp [eraAfterL, hy] at this ⊢; simp [this]
+
+/-- re-establish `Abs` after an operation that only changed list `l` -/
+theorem Abs.update1 {n : Nat} {ha : Nat → Nat} {s : St} {q : Nat → List Nat} (A : Abs n ha s q)
+    {l : Nat} (hl : l < n) {m' : Mem} {h' : Hd} {xs' : List Nat}
+    (hsl : IsSL m' h' xs') (hh : h'.h = ha l)
+    (hfr : ∀ j, j < n → j ≠ l → ∀ a ∈ ha j :: q j, m' a = s.m a)
+    (hdis : ∀ j, j < n → j ≠ l → ∀ x ∈ xs', x ∉ ha j :: q j) :
+    Abs n ha { m := m', hd := setHd s.hd l h' } (setSeq q l xs') := by
+  refine ⟨?_, ?_, ?_⟩
+  · intro i hi
+    by_cases e : i = l
+    · subst e; simpa [setHd, setSeq] using hsl
+    · simp only [setHd, setSeq, e, if_false]
+      refine (A.sl i hi).transfer ?_
+      intro a ha'
+      rw [A.hh i hi] at ha'
+      exact hfr i hi e a ha'
+  · intro i hi
+    by_cases e : i = l
+    · subst e; simpa [setHd] using hh
+    · simpa [setHd, e] using A.hh i hi
+  · intro i j hi hj hij x hx
+    by_cases ei : i = l
+    · subst ei
+      have ej : j ≠ i := fun e => hij e.symm
+      simp only [setSeq, if_true, ej, if_false] at hx ⊢
+      rcases List.mem_cons.mp hx with rfl | hx
+      · exact A.dis i j hi hj hij _ (by simp)
+      · exact hdis j hj ej x hx
+    · by_cases ej : j = l
+      · subst ej
+        simp only [setSeq, ei, if_false, if_true] at hx ⊢
+        intro hm
+        rcases List.mem_cons.mp hm with rfl | hm
+        · exact A.dis i j hi hj hij _ hx (by simp)
+        · exact hdis i hi ei x hm hx
+      · simp only [setSeq, ei, ej, if_false] at hx ⊢
+        exact A.dis i j hi hj hij x hx
+
+/-- re-establish `Abs` after an operation that changed lists `a` and `b` -/
+theorem Abs.update2 {n : Nat} {ha : Nat → Nat} {s : St} {q : Nat → List Nat} (A : Abs n ha s q)
+    {a b : Nat} (hla : a < n) (hlb : b < n) (hab : a ≠ b) {m' : Mem} {ha' hb' : Hd} {xs' ys' : List Nat}
+    (hsa : IsSL m' ha' xs') (hsb : IsSL m' hb' ys') (hha : ha'.h = ha a) (hhb : hb'.h = ha b)
+    (hfr : ∀ j, j < n → j ≠ a → j ≠ b → ∀ x ∈ ha j :: q j, m' x = s.m x)
+    (hsub : ∀ x, x ∈ xs' ++ ys' → x ∈ q a ++ q b)
+    (hxy : ∀ x ∈ xs', x ∉ ys') :
+    Abs n ha { m := m', hd := setHd (setHd s.hd a ha') b hb' } (setSeq (setSeq q a xs') b ys') := by
+  have hdo : ∀ j, j < n → j ≠ a → j ≠ b → ∀ x, x ∈ xs' ++ ys' → x ∉ ha j :: q j := by
+    intro j hj ja jb x hx hm
+    rcases List.mem_append.mp (hsub x hx) with h | h
+    · exact A.dis a j hla hj (Ne.symm ja) x (by simp [h]) hm
+    · exact A.dis b j hlb hj (Ne.symm jb) x (by simp [h]) hm
+  have hha_ne : ∀ x, x ∈ xs' ++ ys' → x ≠ ha a ∧ x ≠ ha b := by
+    intro x hx
+    rcases List.mem_append.mp (hsub x hx) with h | h
+    · refine ⟨fun e => ?_, fun e => A.dis a b hla hlb hab x (by simp [h]) (by simp [e])⟩
+      have := (A.sl a hla).nodup; rw [A.hh a hla, ← e] at this
+      exact (List.nodup_cons.mp this).1 h
+    · refine ⟨fun e => A.dis b a hlb hla (Ne.symm hab) x (by simp [h]) (by simp [e]), fun e => ?_⟩
+      have := (A.sl b hlb).nodup; rw [A.hh b hlb, ← e] at this
+      exact (List.nodup_cons.mp this).1 h
+  have hab_h : ha a ≠ ha b := fun e => A.dis a b hla hlb hab (ha a) (by simp) (by simp [e])
+  refine ⟨?_, ?_, ?_⟩
+  · intro i hi
+    by_cases eb : i = b
+    · subst eb; simpa [setHd, setSeq] using hsb
+    · by_cases ea : i = a
+      · subst ea; simpa [setHd, setSeq, eb] using hsa
+      · simp only [setHd, setSeq, ea, eb, if_false]
+        refine (A.sl i hi).transfer ?_
+        intro x hx
+        rw [A.hh i hi] at hx
+        exact hfr i hi ea eb x hx
+  · intro i hi
+    by_cases eb : i = b
+    · subst eb; simpa [setHd] using hhb
+    · by_cases ea : i = a
+      · subst ea; simpa [setHd, eb] using hha
+      · simpa [setHd, ea, eb] using A.hh i hi
+  · -- contents of list i in the new reference state, as a sublist of the node universe
+    have key : ∀ i, i < n → ∀ x ∈ ha i :: (setSeq (setSeq q a xs') b ys') i,
+        (x = ha i) ∨ (i = a ∧ x ∈ xs') ∨ (i = b ∧ x ∈ ys') ∨ (i ≠ a ∧ i ≠ b ∧ x ∈ q i) := by
+      intro i hi x hx
+      rcases List.mem_cons.mp hx with h | h
+      · exact Or.inl h
+      · by_cases eb : i = b
+        · subst eb; simp only [setSeq, if_true] at h; exact Or.inr (Or.inr (Or.inl ⟨rfl, h⟩))
+        · by_cases ea : i = a
+          · subst ea; simp only [setSeq, eb, if_false, if_true] at h; exact Or.inr (Or.inl ⟨rfl, h⟩)
+          · simp only [setSeq, ea, eb, if_false] at h; exact Or.inr (Or.inr (Or.inr ⟨ea, eb, h⟩))
+    have D1 : ∀ i j, i < n → j < n → i ≠ j → ha i ≠ ha j :=
+      fun i j hi hj hij e => A.dis i j hi hj hij (ha i) (by simp) (by simp [e])
+    have D2 : ∀ i j, i < n → j < n → i ≠ j → ∀ x, x ∈ q i → x ≠ ha j :=
+      fun i j hi hj hij x hx e => A.dis i j hi hj hij x (by simp [hx]) (by simp [e])
+    have D3 : ∀ i j, i < n → j < n → i ≠ j → ∀ x, x ∈ q i → x ∉ q j :=
+      fun i j hi hj hij x hx hm => A.dis i j hi hj hij x (by simp [hx]) (by simp [hm])
+    have D4 : ∀ i, i < n → ha i ∉ q i := by
+      intro i hi
+      have := (A.sl i hi).nodup; rw [A.hh i hi] at this
+      exact (List.nodup_cons.mp this).1
+    have S : ∀ x, (x ∈ xs' ∨ x ∈ ys') → (x ∈ q a ∨ x ∈ q b) := by
+      intro x hx
+      exact List.mem_append.mp (hsub x (List.mem_append.mpr hx))
+    intro i j hi hj hij x hx hm
+    rcases key i hi x hx with h1 | ⟨ea, h1⟩ | ⟨eb, h1⟩ | ⟨ia, ib, h1⟩ <;>
+      rcases key j hj x hm with h2 | ⟨ea2, h2⟩ | ⟨eb2, h2⟩ | ⟨ja, jb, h2⟩ <;> grind
+
+theorem Abs.frame_of_ne {n : Nat} {ha : Nat → Nat} {s : St} {q : Nat → List Nat} (A : Abs n ha s q)
+    {l j : Nat} (hl : l < n) (hj : j < n) (hjl : j ≠ l) {a : Nat} (hm : a ∈ ha j :: q j) :
+    a ∉ ha l :: q l := A.dis j l hj hl hjl a hm
+
+/-- every operation inside its documented domain refines the reference step -/
+theorem step_refines {n : Nat} {ha : Nat → Nat} {s : St} {q : Nat → List Nat} (A : Abs n ha s q)
+    (op : Op) (hen : Enabled n ha q op) :
+    ∃ s', step s op = some (s', (refStep q op).2) ∧ Abs n ha s' (refStep q op).1 := by
+  cases op with
+  | pushFront l e =>
+    obtain ⟨hl, hez, hfresh⟩ := hen
+    have hsl := A.sl l hl
+    have he : e ∉ (s.hd l).h :: q l := by
+      rw [A.hh l hl]; intro hm
+      rcases List.mem_cons.mp hm with h | h
+      · exact (hfresh l hl).1 h
+      · exact (hfresh l hl).2 h
+    obtain ⟨h1, h2⟩ := pushFront_spec hsl he hez
+    refine ⟨_, rfl, A.update1 hl h1 (by simpa [pushFront, insertAfter] using A.hh l hl) ?_ ?_⟩
+    · intro j hj hjl a ham
+      have hn := A.frame_of_ne hl hj hjl ham
+      refine h2 a (fun e2 => hn (by rw [e2, A.hh l hl]; simp)) (fun e2 => ?_)
+      subst e2
+      rcases List.mem_cons.mp ham with h | h
+      · exact (hfresh j hj).1 h
+      · exact (hfresh j hj).2 h
+    · intro j hj hjl x hx hm
+      rcases List.mem_cons.mp hx with rfl | hx
+      · rcases List.mem_cons.mp hm with h | h
+        · exact (hfresh j hj).1 h
+        · exact (hfresh j hj).2 h
+      · exact A.dis l j hl hj (Ne.symm hjl) x (by simp [hx]) hm
+  | pushBack l e =>
+    obtain ⟨hl, hez, hfresh⟩ := hen
+    have hsl := A.sl l hl
+    have he : e ∉ (s.hd l).h :: q l := by
+      rw [A.hh l hl]; intro hm
+      rcases List.mem_cons.mp hm with h | h
+      · exact (hfresh l hl).1 h
+      · exact (hfresh l hl).2 h
+    obtain ⟨h1, h2⟩ := pushBack_spec hsl he hez
+    refine ⟨_, rfl, A.update1 hl h1 (by simpa [pushBack, insertAfter] using A.hh l hl) ?_ ?_⟩
+    · intro j hj hjl a ham
+      have hn := A.frame_of_ne hl hj hjl ham
+      refine h2 a (fun e2 => hn (by rw [e2, ← A.hh l hl]; exact hsl.tail_mem)) (fun e2 => ?_)
+      subst e2
+      rcases List.mem_cons.mp ham with h | h
+      · exact (hfresh j hj).1 h
+      · exact (hfresh j hj).2 h
+    · intro j hj hjl x hx hm
+      rcases List.mem_append.mp hx with hx | hx
+      · exact A.dis l j hl hj (Ne.symm hjl) x (by simp [hx]) hm
+      · have : x = e := by simpa using hx
+        subst this
+        rcases List.mem_cons.mp hm with h | h
+        · exact (hfresh j hj).1 h
+        · exact (hfresh j hj).2 h
+  | insertAfter l b e =>
+    obtain ⟨hl, hb, hez, hfresh⟩ := hen
+    have hsl := A.sl l hl
+    obtain ⟨pre, post, hq⟩ := List.append_of_mem hb
+    have hbpre : b ∉ pre := by
+      have := hsl.nodup
+      rw [hq] at this
+      have := (List.nodup_cons.mp this).2
+      intro hm
+      have h2 := List.nodup_append.mp this
+      exact h2.2.2 b hm b (by simp) rfl
+    have he : e ∉ (s.hd l).h :: ((pre ++ [b]) ++ post) := by
+      rw [A.hh l hl]; intro hm
+      have : e ∈ ha l :: q l := by rw [hq]; simpa using hm
+      rcases List.mem_cons.mp this with h | h
+      · exact (hfresh l hl).1 h
+      · exact (hfresh l hl).2 h
+    have hsl' : IsSL s.m (s.hd l) ((pre ++ [b]) ++ post) := by simpa [hq] using hsl
+    obtain ⟨h1, h2⟩ := insertAfter_spec (i := b) hsl' (by rw [lastOr_append_singleton]) he hez
+    have href : (refStep q (Op.insertAfter l b e)) = (setSeq q l ((pre ++ [b]) ++ e :: post), Res.unit) := by
+      simp [refStep, hq, insAfterL_spec b e pre post hbpre]
+    rw [href]
+    refine ⟨_, rfl, A.update1 hl h1 (by simpa [insertAfter] using A.hh l hl) ?_ ?_⟩
+    · intro j hj hjl a ham
+      have hn := A.frame_of_ne hl hj hjl ham
+      refine h2 a (fun e2 => hn (by rw [e2]; exact List.mem_cons_of_mem _ hb)) (fun e2 => ?_)
+      subst e2
+      rcases List.mem_cons.mp ham with h | h
+      · exact (hfresh j hj).1 h
+      · exact (hfresh j hj).2 h
+    · intro j hj hjl x hx hm
+      have : x = e ∨ x ∈ q l := by
+        rw [hq]; simp only [List.mem_append, List.mem_cons, List.not_mem_nil, or_false] at hx ⊢
+        grind
+      rcases this with rfl | hx
+      · rcases List.mem_cons.mp hm with h | h
+        · exact (hfresh j hj).1 h
+        · exact (hfresh j hj).2 h
+      · exact A.dis l j hl hj (Ne.symm hjl) x (by simp [hx]) hm
+  | eraseAfter l b =>
+    obtain ⟨hl, pre, x, post, hq⟩ := hen
+    have hsl := A.sl l hl
+    have hbpre : b ∉ pre := by
+      have := hsl.nodup
+      rw [hq] at this
+      have := (List.nodup_cons.mp this).2
+      intro hm
+      have h2 := List.nodup_append.mp this
+      exact h2.2.2 b hm b (by simp) rfl
+    have hsl' : IsSL s.m (s.hd l) ((pre ++ [b]) ++ x :: post) := by simpa [hq] using hsl
+    obtain ⟨m', l', h0, h1, h2⟩ := eraseAfter_spec (e := b) hsl' (by rw [lastOr_append_singleton])
+    have href : (refStep q (Op.eraseAfter l b)) = (setSeq q l ((pre ++ [b]) ++ post), Res.ptr (some x)) := by
+      simp [refStep, hq, eraAfterL_spec b x pre post hbpre]
+    rw [href]
+    have hl'h : l'.h = (s.hd l).h := by
+      simp only [eraseAfter] at h0
+      split at h0
+      · cases h0
+      · simp only [Option.some.injEq, Prod.mk.injEq] at h0
+        rw [← h0.2.1]
+    refine ⟨_, by simp [step, h0], A.update1 hl h1 (by rw [hl'h]; exact A.hh l hl) ?_ ?_⟩
+    · intro j hj hjl a ham
+      have hn := A.frame_of_ne hl hj hjl ham
+      exact h2 a (fun e2 => hn (by rw [e2, hq]; simp))
+    · intro j hj hjl y hy hm
+      have : y ∈ q l := by rw [hq]; simp at hy ⊢; grind
+      exact A.dis l j hl hj (Ne.symm hjl) y (by simp [this]) hm
+  | popFront l =>
+    have hl : l < n := hen
+    have hsl := A.sl l hl
+    cases hq : q l with
+    | nil =>
+      rw [hq] at hsl
+      have href : refStep q (Op.popFront l) = (q, Res.ptr none) := by simp [refStep, hq]
+      rw [href]
+      exact ⟨{ m := s.m, hd := setHd s.hd l (s.hd l) }, by simp [step, popFront_empty hsl], by
+        have : setHd s.hd l (s.hd l) = s.hd := by funext j; simp [setHd]; intro e; rw [e]
+        rw [this]; exact A⟩
+    | cons x xs =>
+      rw [hq] at hsl
+      obtain ⟨m', l', h0, h1, h2⟩ := popFront_spec hsl
+      have href : refStep q (Op.popFront l) = (setSeq q l xs, Res.ptr (some x)) := by simp [refStep, hq]
+      rw [href]
+      have hl'h : l'.h = (s.hd l).h := by
+        have hne : (s.hd l).t ≠ (s.hd l).h := fun e => by simpa using (hsl.tail_eq_head_iff.mp e)
+        simp only [popFront, hne, if_false, eraseAfter] at h0
+        split at h0
+        · cases h0
+        · rename_i heq
+          split at heq
+          · cases heq
+          · simp only [Option.some.injEq, Prod.mk.injEq] at heq h0
+            rw [← h0.2.1, ← heq.2.1]
+      refine ⟨_, by simp [step, h0], A.update1 hl h1 (by rw [hl'h]; exact A.hh l hl) ?_ ?_⟩
+      · intro j hj hjl a ham
+        have hn := A.frame_of_ne hl hj hjl ham
+        exact h2 a (fun e2 => hn (by rw [e2, A.hh l hl]; simp))
+      · intro j hj hjl y hy hm
+        exact A.dis l j hl hj (Ne.symm hjl) y (by simp [hq, hy]) hm
+  | reverse l =>
+    have hl : l < n := hen
+    have hsl := A.sl l hl
+    obtain ⟨m', l', h0, h1, h2⟩ := reverse_spec hsl
+    have hl'h : l'.h = (s.hd l).h := by
+      simp only [reverse] at h0
+      split at h0
+      · split at h0
+        · cases h0
+        · simp only [Option.some.injEq, Prod.mk.injEq] at h0; rw [← h0.2]
+      · simp only [Option.some.injEq, Prod.mk.injEq] at h0; rw [← h0.2]
+    refine ⟨_, by simp [step, h0, refStep], A.update1 hl h1 (by rw [hl'h]; exact A.hh l hl) ?_ ?_⟩
+    · intro j hj hjl a ham
+      have hn := A.frame_of_ne hl hj hjl ham
+      exact h2 a (by rw [A.hh l hl]; exact hn)
+    · intro j hj hjl y hy hm
+      exact A.dis l j hl hj (Ne.symm hjl) y (by simp at hy; simp [hy]) hm
+  | sort l key =>
+    have hl : l < n := hen
+    have hsl := A.sl l hl
+    obtain ⟨h1, hperm, _, h2⟩ := sort_spec hsl key
+    have hcount : (s.hd l).count = (q l).length := hsl.count
+    have href : refStep q (Op.sort l key)
+        = (setSeq q l (if (s.hd l).count > 1 then msort key (q l).length (q l) else q l), Res.unit) := by
+      simp [refStep, hcount]
+    rw [href]
+    have hh : (sort s.m (s.hd l) key).2.h = ha l := by
+      simp only [sort]; split <;> simpa using A.hh l hl
+    refine ⟨_, rfl, A.update1 hl h1 hh ?_ ?_⟩
+    · intro j hj hjl a ham
+      have hn := A.frame_of_ne hl hj hjl ham
+      exact h2 a (by rw [A.hh l hl]; exact hn)
+    · intro j hj hjl y hy hm
+      exact A.dis l j hl hj (Ne.symm hjl) y (by simp [hperm.mem_iff.mp hy]) hm
+  | concat d sr =>
+    obtain ⟨hd, hs, hne⟩ := hen
+    have hdis : Disjoint (s.hd d) (q d) (s.hd sr) (q sr) := by
+      intro x hx
+      rw [A.hh d hd] at hx; rw [A.hh sr hs]
+      exact A.dis d sr hd hs hne x hx
+    obtain ⟨h1, h2, h3⟩ := concat_spec (A.sl d hd) (A.sl sr hs) hdis
+    have hh1 : (concat s.m (s.hd d) (s.hd sr)).2.1.h = ha d := by
+      simp only [concat]; split <;> simpa [init] using A.hh d hd
+    have hh2 : (concat s.m (s.hd d) (s.hd sr)).2.2.h = ha sr := by
+      simp only [concat]; split <;> simpa [init] using A.hh sr hs
+    refine ⟨_, rfl, A.update2 hd hs hne h1 h2 hh1 hh2 ?_ (by intro x hx; simpa using hx) (by simp)⟩
+    intro j hj jd js x hx
+    refine h3 x (fun e => ?_) (fun e => ?_)
+    · have := (A.sl d hd).tail_mem
+      rw [← e, A.hh d hd] at this
+      exact A.dis j d hj hd jd x hx this
+    · rw [A.hh sr hs] at e
+      exact A.dis j sr hj hs js x hx (by simp [e])
+  | swap a b =>
+    obtain ⟨hla, hlb, hne⟩ := hen
+    have hdis : Disjoint (s.hd a) (q a) (s.hd b) (q b) := by
+      intro x hx
+      rw [A.hh a hla] at hx; rw [A.hh b hlb]
+      exact A.dis a b hla hlb hne x hx
+    obtain ⟨h1, h2, h3⟩ := swap_spec (A.sl a hla) (A.sl b hlb) hdis
+    have hh1 : (swap s.m (s.hd a) (s.hd b)).2.1.h = ha a := by rw [swap_eq]; exact A.hh a hla
+    have hh2 : (swap s.m (s.hd a) (s.hd b)).2.2.h = ha b := by rw [swap_eq]; exact A.hh b hlb
+    refine ⟨_, rfl, A.update2 hla hlb hne h1 h2 hh1 hh2 ?_ ?_ ?_⟩
+    · intro j hj ja jb x hx
+      refine h3 x (fun e => ?_) (fun e => ?_)
+      · rw [A.hh a hla] at e; exact A.dis j a hj hla ja x hx (by simp [e])
+      · rw [A.hh b hlb] at e; exact A.dis j b hj hlb jb x hx (by simp [e])
+    · intro x hx
+      rcases List.mem_append.mp hx with h | h
+      · exact List.mem_append_right _ h
+      · exact List.mem_append_left _ h
+    · intro x hx hm
+      exact A.dis a b hla hlb hne x (by simp [hm]) (by simp [hx])
+  | clear l poison =>
+    have hl : l < n := hen
+    have hsl := A.sl l hl
+    obtain ⟨h0, h1, hh, _, h3⟩ := clear_spec hsl poison
+    refine ⟨_, by simp [step, refStep, h0], A.update1 hl h1 (by rw [hh]; exact A.hh l hl) ?_ (by simp)⟩
+    intro j hj hjl a ham
+    have hn := A.frame_of_ne hl hj hjl ham
+    exact h3 a (by rw [A.hh l hl]; exact hn)
+  | front l =>
+    have hl : l < n := hen
+    exact ⟨s, by simp [step, refStep, front_spec (A.sl l hl)], A⟩
+  | back l =>
+    have hl : l < n := hen
+    exact ⟨s, by simp [step, refStep, back_spec (A.sl l hl)], A⟩
+  | foreach l visit =>
+    have hl : l < n := hen
+    exact ⟨s, by simp [step, refStep, foreach_spec (A.sl l hl)], A⟩
+
+/-- **C13, history form.**  Any sequence of operations inside the documented
+domain, over any number of lists, starting from any represented state: the
+link-level model never dereferences NULL or loops, returns exactly the results
+of the reference sequences, and ends in a state that represents the reference
+state — in particular every tail pointer is the true last node, so `push_back`
+appends after the true last element after every operation. -/
+theorem run_refines {n : Nat} {ha : Nat → Nat} (ops : List Op) {s : St} {q : Nat → List Nat}
+    (A : Abs n ha s q) (hen : EnabledRun n ha q ops) :
+    ∃ s', run s ops = some (s', (refRun q ops).2) ∧ Abs n ha s' (refRun q ops).1 := by
+  induction ops generalizing s q with
+  | nil => exact ⟨s, rfl, A⟩
+  | cons op ops ih =>
+    obtain ⟨h1, h2⟩ := hen
+    obtain ⟨s1, e1, A1⟩ := step_refines A op h1
+    obtain ⟨s2, e2, A2⟩ := ih A1 h2
+    exact ⟨s2, by simp [run, e1, e2, refRun], A2⟩
+
+/-- the initial state of `n` freshly initialised lists represents `n` empty
+sequences (so `run_refines` applies to every history from the start) -/
+theorem Abs_init (n : Nat) (ha : Nat → Nat) (hnz : ∀ i, i < n → ha i ≠ 0)
+    (hinj : ∀ i j, i < n → j < n → i ≠ j → ha i ≠ ha j) :
+    Abs n ha { m := fun _ => 0, hd := fun i => { h := ha i, t := ha i, count := 0 } } (fun _ => []) :=
+  ⟨fun i hi => ⟨rfl, by simp, hnz i hi, rfl, rfl⟩, fun _ _ => rfl,
+   fun i j hi hj hij x hx hm => by
+     simp only [List.mem_cons, List.not_mem_nil, or_false] at hx hm
+     exact hinj i j hi hj hij (hx ▸ hm)⟩
+
+end Cstl.SList
